@@ -27,28 +27,39 @@ fn trig(i: usize) -> Trigger {
     [Trigger::Edge, Trigger::Level][i]
 }
 
+/// shape bits: 1 = plain setters, 2 = performance interrupt, 4 = maintenance interrupt, 8 = apply everything in reverse order
 pub fn real_gicc(f: &Fill, shape: u16) -> Gicc {
     let mut g = Gicc::new(status(f.e(0, 3)));
+    let mut steps: Vec<u8> = vec![];
     if shape & 1 != 0 {
-        g = g
-            .cpu_interface_number(f.u32(1))
-            .acpi_processor_uid(f.u32(2))
-            .parking_protocol_version(f.u32(3))
-            .parked_address(f.u64(6))
-            .base_address(f.u64(7))
-            .virtual_registers(f.u64(8))
-            .control_block_registers(f.u64(9))
-            .redistributor_base(f.u64(12))
-            .mpidr(f.u64(13))
-            .power_efficiency_class(f.u8(14))
-            .overflow_interrupt(f.u16(15))
-            .trbe_interrupt(f.u16(16));
+        steps.extend(0..12u8);
     }
     if shape & 2 != 0 {
-        g = g.performance_interrupt(f.u32(4), trig(f.e(5, 2)));
+        steps.push(12);
     }
     if shape & 4 != 0 {
-        g = g.maintenance_interrupt(f.u32(10), trig(f.e(11, 2)));
+        steps.push(13);
+    }
+    if shape & 8 != 0 {
+        steps.reverse();
+    }
+    for st in steps {
+        g = match st {
+            0 => g.cpu_interface_number(f.u32(1)),
+            1 => g.acpi_processor_uid(f.u32(2)),
+            2 => g.parking_protocol_version(f.u32(3)),
+            3 => g.parked_address(f.u64(6)),
+            4 => g.base_address(f.u64(7)),
+            5 => g.virtual_registers(f.u64(8)),
+            6 => g.control_block_registers(f.u64(9)),
+            7 => g.redistributor_base(f.u64(12)),
+            8 => g.mpidr(f.u64(13)),
+            9 => g.power_efficiency_class(f.u8(14)),
+            10 => g.overflow_interrupt(f.u16(15)),
+            11 => g.trbe_interrupt(f.u16(16)),
+            12 => g.performance_interrupt(f.u32(4), trig(f.e(5, 2))),
+            _ => g.maintenance_interrupt(f.u32(10), trig(f.e(11, 2))),
+        };
     }
     g
 }
@@ -211,8 +222,10 @@ impl Table for Madt {
                 // alternate shapes across fillings so both occur
                 let shape = match k {
                     K_GICC => {
-                        if j % 2 == 0 {
+                        if j == 0 {
                             7
+                        } else if j == 1 {
+                            15
                         } else {
                             0
                         }
@@ -284,7 +297,7 @@ impl Table for Madt {
     }
     fn shapes(&self, k: u8) -> Vec<u16> {
         match k {
-            K_GICC => vec![7, 0, 1, 2, 4, 3, 5, 6],
+            K_GICC => vec![7, 0, 1, 2, 4, 3, 5, 6, 15, 11],
             K_GICMSI => vec![1, 0],
             _ => vec![0],
         }
